@@ -66,6 +66,10 @@ class GenericValue(Snapshot):
 
         def re_eval(old_value, node, value):
             if isinstance(old_value, Unmanaged):
+                if isinstance(value, Unmanaged):
+                    # sub-snapshots are re-evaluated with the value of their parent,
+                    # which contains the (already updated) Unmanaged objects
+                    value = value.value
                 old_value.value = value
                 return
 
